@@ -127,6 +127,7 @@ TIE = {
     "BisyncSys": ("bidir.rs `copy_atomic` as the list of file-system calls it makes (mkdir, copy into the staging name, fsync of that staging file, rename onto the destination), read as the four steps of one copy in the crash model", ["C08"]),
     "OneWaySys": ("incremental.rs tmp_path / deliver_local / deliver_pull as the list of file-system calls one delivery makes (data into the staging name, rename onto the destination, mtime), read as the program-counter transitions of the one-way crash model", ["C09", "C04"]),
     "ArchiveSave": ("archive.rs `Archive::save` as the list of file-system calls it makes (create and fill `.tmp`, fsync it, `.bak` rotation iff an archive exists, rename into place, fsync of the directory), read as the archive steps of the crash model", ["C08"]),
+    "WireMagic": ("wire.rs `read_magic` (exactly six bytes, all compared with MAGIC)", ["C12"]),
     "Cas": ("cas_decide (wire.rs)", ["C03", "C10", "C13"]),
     "Archive": ("Archive::load's trust decision (archive.rs)", ["C07"]),
     "Plan": ("needs_transfer, glob_match, is_excluded and build_plan (plan.rs)", ["C04", "C14", "C15", "C19"]),
